@@ -384,7 +384,10 @@ def mk_values(max_ops, thorough, part, nparts):
                 r, model = 'unknown', None
                 for vals in itertools.product((-7, -2, 1, 2, 3), repeat=skel.count('1') + skel.count('2') + skel.count('3') + skel.count('4')):
                     m_ = {i + 1: float(v) for i, v in enumerate(vals)}
-                    kind = fn(render(skel, m_)) if True else None
+                    try:
+                        kind = fn(render(skel, m_))
+                    except ZeroDivisionError:
+                        continue
                     if kind is not True:
                         r, model = 'sat', m_
                         break
